@@ -29,6 +29,11 @@ ASSUMPTIONS = [
     "request lines and query strings do) and judged against urllib.parse (RFC 3986: non-ASCII characters are escaped as their UTF-8 bytes; "
     "hex digit case is not compared)",
     "encoder output rules are checked by decoding it with the reference codec and, for base64, byte equality with the reference encoder",
+    "JSON numbers: chibi's codec represents integers beyond the fixnum range as doubles by design (json.c converts bignums with sexp_bignum_to_double "
+    "and reads long digit strings with strtod, as JavaScript does; RFC 8259 section 6 allows it); such integers are compared after rounding to double, "
+    "all others exactly",
+    "UTF-16/UTF-32 conversion in (scheme bytevector) is not among the codecs the property lists and is not driven "
+    "(utf16->string mis-decodes surrogate pairs on the unchanged tree: a uint16_t holds the combined code point; noted in DESIGN.md, out of scope)",
 ]
 COMPONENTS = {"real": ["lib/chibi/base64.scm (streaming encode/decode)", "lib/chibi/json.c reader/writer", "lib/chibi/csv.scm", "lib/chibi/quoted-printable.scm",
                        "(scheme bytevector) accessors (bytevector.stub)", "lib/chibi/uri.scm uri-encode / uri-decode", "lib/srfi/160/uvprims.stub accessors", "read-bytevector!/read-string/port buffering", "collector"],
